@@ -163,6 +163,27 @@ def struct_faults(w, msg_bytes, r):
         xn = all_nodes(x)
         xn[i][1].uuid = xn[j][1].uuid
         emit("dup_uuid:%s<-%s:%d<-%d" % (nodes[i][0], nodes[j][0], i, j), x)
+    # a container and one of its OWN descendants (decoded while the container is being built)
+    for mi, m in enumerate(base.modules[:2]):
+        own = [("px", lambda x, i=0: x.proxies[i]) for _ in m.proxies[:1]]
+        own += [("sym", lambda x, i=0: x.symbols[i]) for _ in m.symbols[:1]]
+        own += [("sec", lambda x, i=0: x.sections[i]) for _ in m.sections[:1]]
+        if m.sections and m.sections[0].byte_intervals:
+            own.append(("bi", lambda x: x.sections[0].byte_intervals[0]))
+            if m.sections[0].byte_intervals[0].blocks:
+                def blk(x):
+                    b = x.sections[0].byte_intervals[0].blocks[0]
+                    return b.code if b.HasField("code") else b.data
+                own.append(("block", blk))
+        for kind, get in own:
+            x = fresh()
+            get(x.modules[mi]).uuid = x.modules[mi].uuid
+            emit("dup_uuid:own_%s=module:%d" % (kind, mi), x)
+        for si, sct in enumerate(m.sections[:1]):
+            if sct.byte_intervals:
+                x = fresh()
+                x.modules[mi].sections[si].byte_intervals[0].uuid = x.modules[mi].sections[si].uuid
+                emit("dup_uuid:own_bi=section:%d.%d" % (mi, si), x)
     # an interval and one of its own blocks
     for mi, m in enumerate(base.modules):
         for si, s in enumerate(m.sections):
@@ -209,6 +230,27 @@ def struct_faults(w, msg_bytes, r):
             x = fresh()
             x.cfg.edges[ei].source_uuid = (e.source_uuid + b"\x07")[:ln]
             emit("uuid_len%d:edge_source:%d" % (ln, ei), x)
+    # --- AuxData tables: never decoded by the loader, must ride through a re-save ----------
+    def aux_maps(x):
+        out = [("ir", x.aux_data)]
+        for mi, m in enumerate(x.modules):
+            out.append(("mod%d" % mi, m.aux_data))
+        return out
+
+    for ci, (cname, amap) in enumerate(aux_maps(base)):
+        for name in sorted(amap)[:2]:
+            for what in ("empty_blob", "empty_type", "garbled_type", "truncated_blob"):
+                x = fresh()
+                ad = aux_maps(x)[ci][1][name]
+                if what == "empty_blob":
+                    ad.data = b""
+                elif what == "empty_type":
+                    ad.type_name = ""
+                elif what == "garbled_type":
+                    ad.type_name = "mapping<" + ad.type_name
+                else:
+                    ad.data = ad.data[: len(ad.data) // 2]
+                emit("aux:%s:%s.%s" % (what, cname, name), x)
     # --- version field, bytes > size, one-ofs unset -----------------------------------
     for v in (0, 3, 5, 2**31):
         x = fresh()
@@ -280,7 +322,7 @@ def apply_fault(w, desc, data, chunks, seed_parts, tier_frac):
     """Re-create one fault from its descriptor (replay)."""
     kind = desc.split(":")[0]
     r = _rng(*seed_parts, "struct")
-    if kind in ("dangling", "illtyped", "dup_uuid", "enum", "version_field", "bytes_gt_size", "oneof_unset") or kind.startswith("uuid_len"):
+    if kind in ("dangling", "illtyped", "dup_uuid", "enum", "version_field", "bytes_gt_size", "oneof_unset", "aux") or kind.startswith("uuid_len"):  # structural
         for d, body, exp in struct_faults(w, data[8:], r):
             if d == desc:
                 return data[:8] + body, exp
